@@ -1,18 +1,31 @@
 import CapyV.Model.Defer
 /-
 C03 — the structural semantics the property demands, written from the property text:
-leaving a construct (by falling off its end, `break`, `continue`, `return` or `.try`
-propagation) runs the defers *registered in it so far*, newest first; inner constructs
-before outer ones; nothing else runs.
+leaving a block activation in ANY way (falling off its end, `break`, `continue`, `return`,
+`.try` propagation) runs the deferred bodies *registered in that activation so far*, newest
+first, each exactly once; inner activations before outer ones; nothing else runs. Running a
+deferred body is itself a block activation: it has its own registrations (a `defer` nested
+in it is run when *it* is left) and its own internal jumps.
+
+A registration is recorded as the action "run this body as a block activation" (`Reg`); an
+activation that is left runs its registered actions, newest first (`runRegs`). A deferred
+body cannot be left by a jump (HIR rejects `break`/`continue`/`return`/`.try` that leave a
+`defer`, see `wellScoped`), so the signal of its activation is dropped.
 -/
 namespace CapyV.Defer
 
+/-- a registered deferred body: what running it does to the state -/
+abbrev Reg := St → St
+
+/-- run the registered actions, newest (head) first, each once -/
+def runRegs (regs : List Reg) (st : St) : St := regs.foldl (fun st r => r st) st
+
 mutual
-/-- `regs`: defers registered so far in the enclosing block's current activation (newest
+/-- `regs`: what was registered so far in the enclosing block's current activation (newest
 first). Returns the signal, the updated registrations and the state. -/
-def execS (fuel : Nat) : Stmt → List Nat → St → Sig × List Nat × St
+def execS (fuel : Nat) : Stmt → List Reg → St → Sig × List Reg × St
   | .print c, regs, st => (.normal, regs, st.emit c)
-  | .defer c, regs, st => (.normal, c :: regs, st)
+  | .defer b, regs, st => (.normal, (fun st => (execBlockS fuel b st).2) :: regs, st)
   | .block label body, regs, st =>
     match execBlockS fuel body st with
     | (.brk l, st') => if label = some l then (.normal, regs, st') else (.brk l, regs, st')
@@ -39,7 +52,7 @@ def execS (fuel : Nat) : Stmt → List Nat → St → Sig × List Nat × St
     match st.decide with
     | (false, st1) => (.normal, regs, st1)
     | (true, st1) => (.brk l, regs, st1)
-def execStmtsS (fuel : Nat) : Stmts → List Nat → St → Sig × List Nat × St
+def execStmtsS (fuel : Nat) : Stmts → List Reg → St → Sig × List Reg × St
   | .nil, regs, st => (.normal, regs, st)
   | .cons s rest, regs, st =>
     match execS fuel s regs st with
@@ -50,8 +63,11 @@ left — run what was registered, newest first -/
 def execBlockS (fuel : Nat) : Stmts → St → Sig × St
   | body, st =>
     match execStmtsS fuel body [] st with
-    | (sig, regs, st') => (sig, st'.emits regs)
+    | (sig, regs, st') => (sig, runRegs regs st')
 end
+
+/-- running a deferred body = one block activation of it -/
+def runner (fuel : Nat) (b : Stmts) : Reg := fun st => (execBlockS fuel b st).2
 
 /-- the function body is a block labelled `0`; `return` is `brk 0` -/
 def runSpec (fuel : Nat) (body : Stmts) (oracle : List Bool) : List Nat :=
